@@ -8,6 +8,7 @@ import (
 	"bufio"
 	"fmt"
 	"io"
+	"io/ioutil"
 	"net"
 	"time"
 
@@ -105,7 +106,8 @@ func (serv *MTCPServer) handleSender(conn net.Conn) {
 
 	connReader := bufio.NewReader(conn)
 	for {
-		if n, err := cboring.ReadByteStringLen(connReader); err != nil {
+		n, err := cboring.ReadByteStringLen(connReader)
+		if err != nil {
 			if err != io.EOF {
 				log.WithFields(log.Fields{
 					"cla":   serv,
@@ -123,15 +125,28 @@ func (serv *MTCPServer) handleSender(conn net.Conn) {
 			continue
 		}
 
+		// The bundle is read from exactly the announced bytes. An unacceptable bundle, e.g., one whose lifetime has
+		// ended, is skipped this way without losing the bundles sent behind it on this connection.
+		frame := io.LimitReader(connReader, int64(n))
+
 		bndl := new(bpv7.Bundle)
-		if err := cboring.Unmarshal(bndl, connReader); err != nil {
+		err = cboring.Unmarshal(bndl, frame)
+		if _, discardErr := io.Copy(ioutil.Discard, frame); discardErr != nil {
+			log.WithFields(log.Fields{
+				"cla":   serv,
+				"conn":  conn,
+				"error": discardErr,
+			}).Warn("MTCP handleServer connection failed to read bundle")
+
+			return
+		}
+
+		if err != nil {
 			log.WithFields(log.Fields{
 				"cla":   serv,
 				"conn":  conn,
 				"error": err,
-			}).Error("MTCP handleServer connection failed to read bundle")
-
-			return
+			}).Error("MTCP handleServer connection received an unacceptable bundle")
 		} else {
 			log.WithFields(log.Fields{
 				"cla":  serv,
